@@ -205,7 +205,8 @@ def collect_races(scratch, stage):
         except OSError:
             continue
         for block in txt.split("WARNING: DATA RACE")[1:]:
-            frames = re.findall(r"^\s+(github\.com/sheerbytes/sheerbytes/[^\s(]+)", block, re.M)
+            frames = [fr[:-2] if fr.endswith("()") else fr
+                      for fr in re.findall(r"^\s+(github\.com/sheerbytes/sheerbytes/\S+)", block, re.M)]
             files = re.findall(r"^\s+(/repo/[^\s:]+):\d+", block, re.M)
             repo_frames = [fr for fr in frames if "/verifkit" not in fr and "/cmd/verifharness" not in fr]
             key = "|".join(sorted(set(repo_frames[:2] + repo_frames[-2:]))) or "harness-only"
